@@ -24,7 +24,7 @@ Spec == Init /\ [][Next]_vars
 Lemma   == (Mode = "lemma" /\ Scan(t) = "ok") => ~OperandCloses(t)
 \* the scanner is not vacuous: it accepts the escaped forms
 ASSUME /\ Scan("a\\\"b") = "ok" /\ Scan("\\x5c\\\"") = "ok" /\ Scan("(?is)[\\s\\x0b]a\\(?i:b") = "ok"
-       /\ Scan("a\"b") = "quote" /\ Scan("a\\\\b") = "backslash" /\ Scan("\\sa") = "space-class"
+       /\ Scan("a\"b") = "quote" /\ Scan("a\\\\b") = "backslash" /\ Scan("\\sa") = "space-class" /\ Scan("[^\\t\\n\\f\\r ]") = "space-class" /\ Scan("[\\t\\n]") = "ok"
        /\ Scan("(?si)a") = "flags" /\ Scan("a(?i:b)") = "flags" /\ Scan("(?i:b)") = "flags"
 Verdict == (Mode = "validate" /\ i > 0) => PrintT(ToJson([i |-> i, v |-> Scan(t), closes |-> OperandCloses(t)]))
 =============================================================================
